@@ -5,6 +5,7 @@ pub mod c04;
 pub mod c05;
 pub mod c06;
 pub mod c07;
+pub mod c08;
 pub mod c09;
 pub mod c10;
 pub mod c11;
@@ -35,6 +36,7 @@ pub fn dispatch(ctx: &Ctx, replay: Option<&str>) -> i32 {
         "C05" => p!(c05),
         "C06" => p!(c06),
         "C07" => p!(c07),
+        "C08" => p!(c08),
         "C09" => p!(c09),
         "C10" => p!(c10),
         "C11" => p!(c11),
